@@ -16,6 +16,12 @@ func VerifC02Graph() {
 	// sorted[perm[i]] for a chosen permutation
 	sorted := make([]string, n)
 	for i := 0; i < n; i++ {
+		if verifBound("concretenames", 0) == 1 {
+			// one concrete representative per rank; exhaustive for code that only compares names
+			// (==, <), which is what the symbolic-name runs with fewer tasks exercise
+			sorted[i] = string(rune('a' + i))
+			continue
+		}
 		sorted[i] = verifString("task.name")
 		if i > 0 {
 			verifAssume(sorted[i-1] < sorted[i])
@@ -40,6 +46,9 @@ func VerifC02Graph() {
 		dep[j] = make([]bool, n)
 		var on []string
 		for i := 0; i < n; i++ {
+			if verifBound("dagonly", 0) == 1 && i >= j {
+				continue // only edges from lower to higher index: acyclic by construction
+			}
 			if verifChoose("dep", 2) == 1 {
 				dep[j][i] = true
 				on = append(on, names[i])
@@ -106,5 +115,31 @@ func VerifC02Graph() {
 		if n >= 3 && dep[2][0] && dep[2][1] && !dep[1][0] && !dep[0][1] {
 			verifReach("fan-in")
 		}
+	}
+}
+
+// VerifC18Reserved: the variable name reserved for job identity is refused, every other name is
+// accepted and reaches every stage together with the job's own id (symbolic variable name/value).
+func VerifC18Reserved() {
+	name := verifString("variable.name")
+	value := verifString("variable.value")
+	jt := buildJobTasks(map[string]definition.TaskDef{"a": {Script: []string{"x"}}, "b": {Script: []string{"y"}, DependsOn: []string{"a"}}})
+	id := vID(7)
+	g, err := buildPipelineGraph(id, jt, map[string]interface{}{name: value})
+	if name == "__jobID" {
+		verifReach("reserved")
+		verifAssert(err != nil, "C18.reserved-variable-name-refused")
+		return
+	}
+	verifReach("ordinary")
+	verifAssert(err == nil && g != nil, "C18.ordinary-variable-name-accepted")
+	if err != nil || g == nil {
+		return
+	}
+	for _, st := range g.Nodes() {
+		got, _ := st.Variables.Get("__jobID").(string)
+		verifAssert(got == id.String(), "C18.stage-carries-its-own-job-id")
+		v, ok := st.Variables.Get(name).(string)
+		verifAssert(ok && v == value, "C18.job-variables-reach-every-stage-unchanged")
 	}
 }
